@@ -214,7 +214,7 @@ func (p *Path) applySpec(in ssa.Instruction, site string, spec *FuncSpec, what s
 		p.oblige("frame", site, "callee modifies everything but caller has a modifies clause", "false")
 	}
 	// environment step for blocking callees
-	if spec.Attrs["blocking"] != "" {
+	if spec.Attrs["blocking"] == "yes" {
 		p.envStep()
 	}
 	// havoc
@@ -389,9 +389,52 @@ func (p *Path) havocAll() {
 func (p *Path) havocAllExcept(spec *FuncSpec) {
 	pre := p.st.clone()
 	now := p.st.now
+	// the callee cannot write this function's non-escaping locals, nor closure cells it was not handed
+	type keep struct {
+		addr string
+		t    types.Type
+		old  string
+	}
+	var keeps []keep
+	for _, a := range p.fx.allocs {
+		v, ok := p.vals[a]
+		if !ok || allocEscapes(a) {
+			continue
+		}
+		t := a.Type().Underlying().(*types.Pointer).Elem()
+		if isScalar(t) {
+			keeps = append(keeps, keep{v.T, t, p.loadIn(&pre, v.T, t, false)})
+		}
+	}
+	for _, fv := range p.fx.fn.FreeVars {
+		if pt, ok := fv.Type().Underlying().(*types.Pointer); ok && isScalar(pt.Elem()) {
+			v := p.val(fv)
+			keeps = append(keeps, keep{v.T, pt.Elem(), p.loadIn(&pre, v.T, pt.Elem(), false)})
+		}
+	}
 	p.st = State{epoch: p.fx.fresh("e"), epochNow: now, heaps: map[string]string{}, now: now, prev: &pre}
 	p.fx.wroteAll = true
 	p.envStep()
+	for _, k := range keeps {
+		p.assume(fmt.Sprintf("(= %s %s)", p.loadIn(&p.st, k.addr, k.t, false), k.old))
+	}
+}
+
+// allocEscapes: the address of a local is used other than as the direct target of loads and stores.
+func allocEscapes(a *ssa.Alloc) bool {
+	for _, r := range *a.Referrers() {
+		switch u := r.(type) {
+		case *ssa.UnOp:
+		case *ssa.Store:
+			if u.Val == a {
+				return true
+			}
+		case *ssa.DebugRef:
+		default:
+			return true
+		}
+	}
+	return false
 }
 
 // siteGhosts runs the ghost statements anchored at this call.
